@@ -482,6 +482,14 @@ class Parser(IdlVisitor):
                 self.resolver.load_external(extern_path.path)
             except InputParsingException as e:
                 self.errors.append(e)
+            except UnicodeDecodeError as e:
+                valid_prefix = e.object[:e.start]
+                cursor = Cursor(line=valid_prefix.count(b'\n') + 1,
+                                col=len(valid_prefix.rsplit(b'\n', 1)[-1].decode('utf-8', errors='replace')))
+                self.errors.append(InputParsingException(
+                    f"The file is not valid UTF-8 text: {e.reason}",
+                    Position(start=cursor, end=cursor, file=extern_path.path)
+                ))
 
 
     def visitImportDef(self, ctx: IdlParser.ImportDefContext):
